@@ -418,3 +418,72 @@ pub proof fn lemma_set_sum_superset(du: UsageMap, all: Set<(DepotIdx, VehicleTyp
         lemma_set_sum_superset(du, all.remove(x));
     }
 }
+
+// ---- set_next_day_transitions (D10): the schedule's maintenance violation is the sum over the installed
+// transitions ------------------------------------------------------------------------------------------
+impl<K, V> self::im::HashMap<K, V> {
+    /// im: `values(&self) -> Values<'_, K, V>`: "Get an iterator over a hash map's values." (A-iter: as
+    /// SeqIter; im's Values and Keys both wrap the same node iterator, so the value of `key_seq()[i]` comes i-th)
+    #[verifier::external_body]
+    pub fn values<'a>(&'a self) -> (r: SeqIter<&'a V>)
+        ensures
+            r@.len() == self.key_seq().len(),
+            forall|i: int| 0 <= i < r@.len() ==> self@.contains_key(self.key_seq()[i]) && *(#[trigger] r@[i]) == self@[self.key_seq()[i]],
+    { unimplemented!() }
+}
+impl<K, V> self::im::HashMap<K, V> {
+    /// im: `into_iter(self)` (consuming iterator over the entries; A-iter: as SeqIter, one entry per key, in
+    /// the order of `key_seq`).  Not called by the code under contract today; present so that a loop over a
+    /// map type-checks.
+    #[verifier::external_body]
+    pub fn into_iter(self) -> (r: SeqIter<(K, V)>)
+        ensures
+            r@.len() == self.key_seq().len(),
+            forall|i: int| 0 <= i < r@.len() ==> self@.contains_key(self.key_seq()[i]) && (#[trigger] r@[i]) == (self.key_seq()[i], self@[self.key_seq()[i]]),
+    { unimplemented!() }
+}
+pub open spec fn sp_viol_of(m: Map<VehicleTypeIdx, Transition>) -> spec_fn(VehicleTypeIdx) -> int {
+    |vt: VehicleTypeIdx| m[vt].total_maintenance_violation as int
+}
+/// "the schedule's maintenance violation": the sum, over the vehicle types, of the violation of the
+/// type's next-period transition
+pub open spec fn sp_transitions_violation(m: Map<VehicleTypeIdx, Transition>) -> int { set_sum(m.dom(), sp_viol_of(m)) }
+pub open spec fn is_viols_of(m: Map<VehicleTypeIdx, Transition>, ks: Seq<VehicleTypeIdx>, s: Seq<MaintenanceCounter>) -> bool {
+    s.len() == ks.len() && forall|i: int| 0 <= i < s.len() ==> (#[trigger] s[i]) as int == sp_viol_of(m)(ks[i])
+}
+pub proof fn lemma_isum_prefix_le(s: Seq<int>, k: int)
+    requires forall|i: int| 0 <= i < s.len() ==> 0 <= #[trigger] s[i], 0 <= k <= s.len(),
+    ensures 0 <= isum(s.take(k)) <= isum(s),
+{
+    assert(s =~= s.take(k) + s.skip(k));
+    lemma_isum_append(s.take(k), s.skip(k));
+    lemma_isum_nonneg(s.take(k));
+    lemma_isum_nonneg(s.skip(k));
+}
+/// the i64 sum of the per-type violations (none negative, total fits) is the set sum, whatever the order
+pub proof fn lemma_transitions_violation(m: Map<VehicleTypeIdx, Transition>, ks: Seq<VehicleTypeIdx>)
+    requires
+        ks.no_duplicates(), forall|k: VehicleTypeIdx| #[trigger] ks.contains(k) <==> m.contains_key(k),
+        forall|vt: VehicleTypeIdx| m.contains_key(vt) ==> 0 <= (#[trigger] m[vt]).total_maintenance_violation,
+        sp_transitions_violation(m) <= i64::MAX,
+    ensures
+        0 <= sp_transitions_violation(m),
+        forall|s: Seq<MaintenanceCounter>| is_viols_of(m, ks, s) ==> #[trigger] <i64 as VSum<i64>>::sum_req(s),
+        forall|s: Seq<MaintenanceCounter>| is_viols_of(m, ks, s) ==> #[trigger] <i64 as VSum<i64>>::spec_sum(s) == sp_transitions_violation(m),
+{
+    let f = sp_viol_of(m);
+    lemma_set_sum_seq(ks, m.dom(), f);
+    assert forall|i: int| 0 <= i < ks.len() implies 0 <= #[trigger] ks.map_values(f)[i] by { assert(ks.contains(ks[i])); }
+    lemma_isum_nonneg(ks.map_values(f));
+    assert forall|s: Seq<MaintenanceCounter>| #[trigger] is_viols_of(m, ks, s) implies
+        <i64 as VSum<i64>>::sum_req(s) && <i64 as VSum<i64>>::spec_sum(s) == sp_transitions_violation(m) by {
+        let si = s.map_values(|x: i64| x as int);
+        assert(si =~= ks.map_values(f));
+        assert forall|k: int| 0 <= k <= s.len() implies i64::MIN <= isum((#[trigger] s.take(k)).map_values(|x: i64| x as int)) <= i64::MAX by {
+            assert(s.take(k).map_values(|x: i64| x as int) =~= si.take(k));
+            lemma_isum_prefix_le(si, k);
+        }
+    }
+}
+/// A-derive: the derived Clone of Schedule is structural (im maps / Arc are clone-equal)
+impl Clone for Schedule { #[verifier::external_body] fn clone(&self) -> (r: Self) ensures r == *self { unimplemented!() } }
